@@ -429,7 +429,7 @@ func (s *Session) onRecord(resp *Response, req *Request) {
 
 func (s *Session) onPlay(resp *Response, req *Request) (err error) {
 	if s.status == statusPlaying {
-		return
+		return s.response(resp)
 	}
 
 	// 传输模式、会话模式判断
